@@ -563,7 +563,9 @@ impl<T: Dom> Model for C05Model<T> {
         self.init.clone()
     }
     fn actions(&self, state: &St<T>, actions: &mut Vec<Act>) {
-        if state.panic.is_none() {
+        // no successors beyond the depth bound (they would be computed only to be discarded by
+        // `within_boundary`) and none after a panic of the real code
+        if state.panic.is_none() && state.depth < self.cfg.max_depth {
             actions.extend(self.acts.iter().cloned());
         }
     }
